@@ -100,6 +100,13 @@ func (g *GoBackNConn) clientHandshake() error {
 		resp    Message
 		respSYN *PacketSYN
 		resent  bool
+
+		// recvPending is true while a read that we requested from the
+		// receive goroutine has not yet been handed back to us. We
+		// only ever request one read at a time, so that no extra read
+		// is left over once the handshake completes. A left over read
+		// would steal (and drop) a packet of the data phase.
+		recvPending bool
 	)
 handshake:
 	for {
@@ -123,13 +130,16 @@ handshake:
 			// Wait for SYN
 			g.log.Debugf("Waiting for SYN")
 
-			select {
-			case recvNext <- 1:
-			case <-g.quit:
-				return nil
-			case <-g.ctx.Done():
-				return g.ctx.Err()
-			default:
+			if !recvPending {
+				select {
+				case recvNext <- 1:
+					recvPending = true
+				case <-g.quit:
+					return nil
+				case <-g.ctx.Done():
+					return g.ctx.Err()
+				default:
+				}
 			}
 
 			timeout := g.timeoutManager.GetHandshakeTimeout()
@@ -149,6 +159,7 @@ handshake:
 			case err := <-errChan:
 				return err
 			case b = <-recvChan:
+				recvPending = false
 			}
 
 			resp, err = Deserialize(b)
